@@ -472,3 +472,100 @@ def model_validation_step(ctx):
     if ok and m:
         return [("ok", "strmodel-native-validation", {"what": "trim/lowercase/uppercase models equal the real std functions on %s strings over the harness alphabet" % m.group(1)})]
     return [("inconclusive", "strmodel-native-validation", {"what": "model validation did not pass: " + out[-600:]})]
+
+
+# ------------------------------------------------------------------------------------------------ C09 (String Arbitrary)
+# Declarations whose generated `target_len` is a CONSTANT (len_char_min == len_char_max, or not_empty + len_char_max = 1), byte
+# streams made of 4-byte words that encode ASCII characters (concrete whitespace words, symbolic non-whitespace fillers), and
+# `String::push` stubbed by an ASCII one-byte model: every buffer length stays concrete.  Python mirrors the generated
+# algorithm (fill target_len characters; with `trim`: re-trim and push the next character until the trimmed count reaches
+# target_len) only to know WHICH trim calls happen (the plan) and what text results; the assertion is C09's: no panic, and the
+# value returned is accepted by the constructor's reference predicate and equals the sanitized generated text.
+C09_STUBS = STUBS + "    #[kani::stub(alloc::string::String::push, crate::support::strmodel::push_ascii_model)]\n"
+
+
+def c09_simulate(d, target_len, stream):
+    """stream: list of Cells (one per 4-byte word). returns (stored cells after try_new's sanitizers, trim plans, words consumed)"""
+    pos = 0
+    def next_cell():
+        nonlocal pos
+        if pos < len(stream):
+            c = stream[pos]
+        else:
+            c = Cell(ch="\0")   # exhausted input: u32::arbitrary pads with zeros -> '\0' (not whitespace)
+        pos += 1
+        return c
+    out = [next_cell() for _ in range(target_len)]
+    plans = []
+    if "trim" in d.sanitizers:
+        for _ in range(8):
+            t, p = sim_trim(out)
+            plans.append(p)
+            if len(t) == target_len:
+                break
+            if len(t) < target_len:
+                t2, p2 = sim_trim(out)
+                plans.append(p2)
+                out = t2 + [next_cell()]
+        else:
+            return None
+    stored, p3 = simulate(d.sanitizers, out)
+    return stored, plans + p3, pos
+
+
+def c09_harness(d, target_len, stream_sk, name, kind_cover=True):
+    cells = parse_skeleton(stream_sk)
+    sim = c09_simulate(d, target_len, cells)
+    if sim is None or len(sim[1]) > 8:
+        return None
+    stored, plans, used = sim
+    fills = sorted({c.fill for c in cells if c.fill})
+    b = [d.setup()]
+    for f in fills:
+        v = "b%s" % f.lower()
+        b.append("let %s: u8 = kani::any(); kani::assume(%s > 0x20 && %s < 0x7f && %s != b'_');" % (v, v, v, v))
+    words = []
+    for c in cells:
+        words += [c.rust_bytes()[0], "0", "0", "0"]
+    b.append("let data: [u8; %d] = [%s];" % (max(len(words), 1), ", ".join(words) if words else "0"))
+    b.append("let mut u = arbitrary::Unstructured::new(&data[..%d]);" % len(words))
+    b += plan_stmt(plans)
+    b.append(expect_bytes(stored))
+    nb = byte_len(stored)
+    b.append("let valid: bool = %s;" % d.valid_expr(stored))
+    b.append("let r = <%s as arbitrary::Arbitrary>::arbitrary(&mut u);" % d.name)
+    b.append("kani::cover!(r.is_ok());")
+    b.append("match r { Ok(v) => { let g = v.into_inner(); let gb = g.as_bytes(); assert!(valid, \"arbitrary returned a value violating a validator\"); "
+             "assert!(%s, \"arbitrary returned something other than the sanitized generated text\"); core::mem::forget(g); } Err(_) => {} }" % eq_bytes("gb", "exp", nb))
+    src = "    #[kani::proof]\n    #[kani::unwind(%d)]\n%s    pub fn %s() {\n        %s\n    }\n" % (14, C09_STUBS, name, "\n        ".join(s for s in b if s))
+    # an EMPTY intermediate text (all-whitespace draws) is where CBMC's heap model gets lost (dangling-pointer Strings, see
+    # DESIGN §11): such harnesses are best effort - a timeout or a natively non-reproducing heap failure is `undecided`
+    empty_step = any(a == e for (a, e) in plans) or len(stored) == 0
+    return src, empty_step
+
+
+def gen_c09(plan, tier, rng):
+    src = []
+    decls = [
+        (StrDecl([], ["min", "max"], literal={"min": 2, "max": 2}, modname="c09s_plain2"), 2, ["XY", "X", "", "X Y"]),
+        (StrDecl(["lowercase"], ["min", "max"], literal={"min": 2, "max": 2}, modname="c09s_lower2"), 2, ["XY", "X"]),
+        (StrDecl(["uppercase"], ["min", "max"], literal={"min": 2, "max": 2}, modname="c09s_upper2"), 2, ["XY"]),
+        (StrDecl(["trim"], ["not_empty", "max"], literal={"max": 1}, modname="c09s_trim_ne1"), 1, ["X", " X", "  X", " ", "", "X "]),
+        (StrDecl(["trim"], ["min", "max"], literal={"min": 2, "max": 2}, modname="c09s_trim2"), 2, ["XY", " XY", "X Y", "X ", " X Y", "  XY"]),
+        (StrDecl(["trim", "lowercase"], ["min", "max"], literal={"min": 1, "max": 1}, modname="c09s_trim_lower1"), 1, ["X", " X", "\tX"]),
+        (StrDecl([], ["not_empty", "max"], literal={"max": 1}, modname="c09s_ne1"), 1, ["X", " ", ""]),
+    ]
+    if tier == "quick":
+        decls = [(d, t, sks[:4]) for (d, t, sks) in decls]
+    for (d, tlen, sks) in decls:
+        d.derive = ["Debug", "Arbitrary"]
+        body = ""
+        for i, sk in enumerate(sks):
+            hn = "c09_str_%s_%s" % (d.modname(), sk_tag(i))
+            h = c09_harness(d, tlen, sk, hn)
+            if h is None:
+                continue
+            body += h[0]
+            plan.add(H(hn, "best_effort" if h[1] else "main", dict(d.describe(), target_len=tlen, stream="4-byte words encoding " + skeleton_repr(sk) + " (fillers symbolic ASCII), then exhausted")))
+        src.append(module(d, body))
+    return "\n".join(src)
